@@ -182,7 +182,7 @@ Release(c) == CanInput /\ c \in phys /\ Input("u", c) /\ phys' = phys \ {c}
 TickRec(r) == [on |-> TRUE, out |-> r.out, idle |-> r.idle, cb |-> r.cb, msgs |-> r.msgs, lrr |-> r.S.K.lrr,
                idx |-> r.S.idx, layer |-> LayerNameOf(r.S.cfg, CurLayerOf(r.S.cfg, r.S.K)), repl |-> r.repl]
 \* the monitor only needs to know whether the content parses: all failing kinds are one value in its state
-MonKind(f) == IF CfgOfKind[f] = "" THEN "bad" ELSE f
+MonKind(f) == IF CfgOfKind[f] = "" \/ f \in PostFailDef THEN "bad" ELSE f
 TickWith(f, att, aidx) ==
   LET ra == LoopIter(SA, f, FALSE)
       rb == IF lane.b THEN LoopIter(SB, f, TRUE) ELSE 0
